@@ -89,7 +89,12 @@ Rules ==
      [r |-> "string-index-assign-field", ss |-> <<Raw(<<"mp := {a:\"ab\"}">>), Raw(<<"mp.a[0] = \"x\"">>), Raw(<<"print mp">>)>>, sites |-> Sites],
      [r |-> "string-index-assign-key", ss |-> <<Raw(<<"mp := {a:\"ab\"}">>), Raw(<<"mp[\"a\"][0] = \"x\"">>), Raw(<<"print mp">>)>>, sites |-> Sites],
      [r |-> "string-index-assign-nested", ss |-> <<Raw(<<"ws := [[\"ab\"]]">>), Raw(<<"ws[0][0][1] = \"x\"">>), Raw(<<"print ws">>)>>, sites |-> Sites],
-     [r |-> "string-slice-assign", ss |-> <<Raw(<<"ws := [\"ab\"]">>), Raw(<<"ws[0][0:1] = \"x\"">>), Raw(<<"print ws">>)>>, sites |-> Sites] >>
+     [r |-> "string-slice-assign", ss |-> <<Raw(<<"ws := [\"ab\"]">>), Raw(<<"ws[0][0:1] = \"x\"">>), Raw(<<"print ws">>)>>, sites |-> Sites],
+     [r |-> "param-without-colon-eq", ss |-> <<Raw(<<"func pp a=num">>), Raw(<<"    print a">>), Raw(<<"end">>), Raw(<<"pp 1">>)>>, sites |-> {"top0", "top1"}],
+     [r |-> "param-without-colon-dot", ss |-> <<Raw(<<"func pp a.num">>), Raw(<<"    print a">>), Raw(<<"end">>), Raw(<<"pp 1">>)>>, sites |-> {"top0", "top1"}],
+     [r |-> "param-without-colon-dots", ss |-> <<Raw(<<"func pp a...num">>), Raw(<<"    print a">>), Raw(<<"end">>), Raw(<<"pp 1">>)>>, sites |-> {"top0", "top1"}],
+     [r |-> "handler-param-without-colon", ss |-> <<Raw(<<"on down x=num y:num">>), Raw(<<"    print x y">>), Raw(<<"end">>)>>, sites |-> {"top0", "top1"}],
+     [r |-> "typed-decl-with-stray", ss |-> <<Raw(<<"td:num 5">>), Raw(<<"print td">>)>>, sites |-> Sites] >>
 
 \* ---- stray text after the n-th `end` line: the edit is carried in the case (fields n, extra) and
 \* applied to the rendered text by the check (append extra to the n-th line that consists of `end`)
